@@ -54,7 +54,7 @@ impl Engine for C06 {
             container,
             io,
             sched,
-            params: params! {"workers" => workers},
+            params: params! {"workers" => workers, "reread" => rng.chance(1, 6)},
             extra: vec![],
         }
     }
@@ -181,6 +181,60 @@ impl Engine for C06 {
                 }
             }
         }
+        // the same path rewritten with other content of the same shape (same ids and
+        // lengths => same file size, same compressed size for stored blocks) and
+        // read again in the same process: the reader must deliver the new content
+        if out.violation.is_none() && case.params.get("reread").and_then(|v| v.as_bool()).unwrap_or(false) && n > 0 {
+            let rec2: Vec<Rec> = case
+                .records
+                .iter()
+                .map(|r| Rec {
+                    id: r.id.clone(),
+                    desc: r.desc.clone(),
+                    seq: r
+                        .seq
+                        .chars()
+                        .map(|c| match c {
+                            'A' => 'C',
+                            'C' => 'G',
+                            'G' => 'T',
+                            'T' => 'A',
+                            'a' => 'c',
+                            'c' => 'g',
+                            'g' => 't',
+                            't' => 'a',
+                            x => x,
+                        })
+                        .collect(),
+                })
+                .collect();
+            let path2 = write_input(&dir, "in", &rec2, &case.container);
+            let p3 = path2.clone();
+            let r2 = sim(&Sched::fifo(), &IoSpec::off(), None, None, 1, steps_for(case), move || -> Result<Vec<Vec<u8>>, String> {
+                let fmt = SeqFormat::get(&p3).ok_or_else(|| "format not inferred".to_string())?;
+                let reader = get_reader(&p3)?;
+                Ok(Sequences::new(fmt, reader)?.map(|s| s.seq).collect())
+            });
+            out.absorb(&r2, false);
+            out.probe("path_rewritten_and_reread", 1);
+            match r2.value {
+                Ok(Ok(Ok(seqs))) => {
+                    let want: Vec<&[u8]> = rec2.iter().map(|r| r.seq.as_bytes()).collect();
+                    let got: Vec<&[u8]> = seqs.iter().map(|s| s.as_slice()).collect();
+                    if got != want {
+                        out.fail(
+                            "stale_read",
+                            format!(
+                                "after the file at the same path was rewritten (same ids and lengths, other bases) the reader still delivers {} ({})",
+                                if seqs.iter().map(|s| s.as_slice()).eq(case.records.iter().map(|r| r.seq.as_bytes())) { "the OLD content" } else { "something else" },
+                                case.container.describe()
+                            ),
+                        );
+                    }
+                }
+                other => out.fail("reread", format!("second read of the rewritten path failed: {:?}", other.map(|x| x.map(|y| y.map(|_| ())))))
+            }
+        }
         if let Some(g) = &case.container.gz {
             out.probe("gzip", 1);
             if crate::common::gzip_members(&path) > 1 {
@@ -216,6 +270,7 @@ impl Engine for C06 {
             "no_final_newline",
             "empty_record",
             "several_workers_got_records",
+            "path_rewritten_and_reread",
         ]
     }
 
